@@ -154,7 +154,10 @@ def check_locality(ctx, case, log, r, order, start_idx):
     moved = abs(x - r) > 1e-9 * max(1.0, abs(r))
     if not moved:
       continue
-    if kind == "call" and has1:
+    # order 1: a leaf with .deriv is never differenced.  order 2: a leaf with .deriv2 is never
+    # differenced; a leaf that only has .deriv may legitimately be touched away from r, because the
+    # nearest enclosing combination then has no .deriv2 either and is differenced as a whole.
+    if kind == "call" and ((order == 1 and has1) or (order == 2 and has2)):
       ctx.violation("fallback_locality", "during deriv%s(%r) leaf %s (offers .deriv) had its energy evaluated at %r" % ("" if order == 1 else "2", r, n.get("name", n["k"]), x), what="fallback_locality")
       return False
     if kind == "deriv" and has2:
